@@ -312,6 +312,24 @@ def parentOf (ver : Nat) (skip : List Nat) (ps : EbAttState) (map : Array Nat) :
       some { numComponents := ps.desc.numComponents, map := map, ints := #[], intsOk := false,
              floats := fl.getD #[], floatsOk := fl.isSome }
 
+/-- the corner table an attribute decoder traverses and predicts on: the base table or, for a per-corner
+    decoder, the attribute corner table of its attribute data -/
+def viewOfDecoder (mesh : Mesh) (dec : AttDecoder) : TView :=
+  if dec.cornerDecoder then
+    let a := mesh.atts[dec.attDataId.toNat]!
+    { c2v := a.c2v, opp := mesh.opp, seam := a.edgeSeam, lm := a.lm, isAtt := true, numFaces := mesh.numFaces }
+  else { c2v := mesh.c2v, opp := mesh.opp, seam := #[], lm := mesh.vc, isAtt := false, numFaces := mesh.numFaces }
+
+/-- `GenerateSequence` of an attribute decoder -/
+def sequenceOfDecoder (mesh : Mesh) (dec : AttDecoder) : R SeqOut :=
+  let view := viewOfDecoder mesh dec
+  let v2dSize :=
+    if dec.attDataId < 0 then mesh.vc.size
+    else max (mesh.atts[dec.attDataId.toNat]!).lm.size mesh.vc.size
+  if dec.traversalMethod == Generated.MESH_TRAVERSAL_PREDICTION_DEGREE.toNat
+  then maxPredictionDegree view mesh.faces v2dSize
+  else depthFirst view mesh.faces v2dSize
+
 /-- `PointCloudDecoder::DecodePointAttributes` of `MeshEdgebreakerDecoder` -/
 def decodeAttributes (opts : DecOpts) (mesh : Mesh) : DecM (List Attribute) := do
   let ver ← version
@@ -356,25 +374,15 @@ def decodeAttributes (opts : DecOpts) (mesh : Mesh) : DecM (List Attribute) := d
   let posAtt : Option Nat := (List.range states.size).find? fun k =>
     (states[k]!).desc.attType == Generated.geometryAttribute_POSITION.toNat
   -- DecodeAllAttributes
-  let baseView : TView := { c2v := mesh.c2v, opp := mesh.opp, seam := #[], lm := mesh.vc, isAtt := false,
-                            numFaces := mesh.numFaces }
+  let baseView : TView := viewOfDecoder mesh { attDataId := -1, cornerDecoder := false, traversalMethod := 0 }
   let mut maps : Array (Array Nat) := Array.replicate states.size #[]
   let mut numValuesOf : Array Nat := Array.replicate states.size 0
   for i in [0:numDecoders] do
     let dec := decoders[i]!
     -- GenerateSequence
-    let view : TView :=
-      if dec.cornerDecoder then
-        let a := mesh.atts[dec.attDataId.toNat]!
-        { c2v := a.c2v, opp := mesh.opp, seam := a.edgeSeam, lm := a.lm, isAtt := true, numFaces := mesh.numFaces }
-      else baseView
-    let v2dSize :=
-      if dec.attDataId < 0 then mesh.vc.size
-      else max (mesh.atts[dec.attDataId.toNat]!).lm.size mesh.vc.size
+    let view : TView := viewOfDecoder mesh dec
     alloc "mesh_traversal_sequencer.point_ids" (4 * view.numVertices)
-    let seq ← liftR (if dec.traversalMethod == Generated.MESH_TRAVERSAL_PREDICTION_DEGREE.toNat
-                     then maxPredictionDegree view mesh.faces v2dSize
-                     else depthFirst view mesh.faces v2dSize)
+    let seq ← liftR (sequenceOfDecoder mesh dec)
     tag (if dec.cornerDecoder then "traversal:depth_first:attribute_table"
          else if dec.traversalMethod == Generated.MESH_TRAVERSAL_PREDICTION_DEGREE.toNat then "traversal:max_prediction_degree"
          else "traversal:depth_first")
